@@ -386,7 +386,7 @@ def truth_profile(db: ProgramDB, fn: FuncInfo, envs: List[dict], make_init, make
     return cfg, res
 
 
-def domain_mapping_profile(db: ProgramDB):
+def domain_mapping_profile(db: ProgramDB, outside_loop: bool = False):
     m = db.method("DomainMapping", "_evaluate__")
     ywf = "yield_when_false"
     envs = [dict(invert=i, truthy=t, ywf=y) for i, t, y in itertools.product([False, True], repeat=3)]
@@ -398,7 +398,7 @@ def domain_mapping_profile(db: ProgramDB):
     def make_hooks(env):
         def attr_hook(e, st, ev):
             # `<mapped value>.value`: the truthiness of the value the mapping produced
-            if isinstance(e, ast.Attribute) and e.attr == "value" and isinstance(e.value, ast.Name):
+            if isinstance(e, ast.Attribute) and e.attr == "value" and isinstance(e.value, (ast.Name, ast.Subscript)):
                 return ("obj", "truthy") if env["truthy"] else ("obj", "falsy")
             return None
 
@@ -421,7 +421,7 @@ def domain_mapping_profile(db: ProgramDB):
             body_nodes.add(id(n))
     filt = {}
     for k, reached in res.items():
-        filt[k] = [(n, st) for n, st in reached if id(n.ast) in body_nodes]
+        filt[k] = [(n, st) for n, st in reached if (id(n.ast) in body_nodes) != outside_loop]
     return m, filt
 
 
@@ -479,6 +479,11 @@ def rule_neg_truth(db: ProgramDB) -> List[Instance]:
     out += _judge_truth("NEG-TRUTH", "DomainMapping._evaluate__", m, res)
     m2, res2 = variable_output_profile(db)
     out += _judge_truth("NEG-TRUTH", "Variable._process_output_and_update_values_", m2, res2)
+    # the third site: a mapping that finds itself bound already (the same object a second time in the condition) decides its
+    # truth from the bound value - with the same table, the inversion flag included
+    m3, res3 = domain_mapping_profile(db, outside_loop=True)
+    if any(res3.values()):
+        out += _judge_truth("NEG-TRUTH", "DomainMapping._evaluate__[bound already]", m3, res3)
     return out
 
 
